@@ -101,6 +101,9 @@ def run(run):
     pairs = list(itertools.product(range(len(POOL)), repeat=2))
     edits_per = 3 if run.tier == 'quick' else len(EDITS)
     for a, b in pairs:
+        if not run.time_left():
+            run.notes.append('derive-then-edit stopped at the deadline')
+            break
         for op in dops:
             unary = op[0] in ('copy', 'inverted', 'transposed', 'op_invert', 'op_neg', 'take')
             if unary and b != 0:
@@ -143,6 +146,8 @@ def run(run):
     import zlib
     for tab in gen.suite(rng, run.tier, exh_quick=6, rand_quick=150, wide_quick=5, exh_thorough=9, rand_thorough=2000):
         n, m, rows = tab
+        if not run.time_left():
+            break
         objs = ['o%d' % ((i * 7 + 3) % 101) for i in range(n)]
         props = ['p%d' % ((j * 5 + 2) % 103) for j in range(m)]
         bools = [tuple(bool((r >> j) & 1) for j in range(m)) for r in rows]
